@@ -1,17 +1,40 @@
 (* C02 - Everything WriteTo emits is a structurally valid MQTT v5.0 frame. *)
-From MQ Require Import Model.Stream Proofs.BytesP Proofs.VbP Proofs.WireP Proofs.EncP Proofs.SpecWireP
-     Proofs.SpecP Spec.Mqtt5 Spec.Glue.
+From MQ Require Import Model.Stream Model.Api Proofs.BytesP Proofs.VbP Proofs.WireP Proofs.EncP Proofs.SpecWireP
+     Proofs.SpecP Proofs.PropsP Proofs.RoundP Proofs.DomP Proofs.AcceptP Proofs.SpecRoundP Proofs.ConformP
+     Spec.Mqtt5 Spec.Glue.
 
-(* Proved: the outer layer of the specification's strict reading for every
-   packet type and every packet value - exactly one frame, minimal
-   remaining-length field equal to the number of bytes that follow - and
-   field by field that the specification's parsers accept what the
-   library's field encoders write and return the value written.
-   The per-packet field order, the allowed-identifier sets and the
-   "reason code and property length present whenever properties follow"
-   rule are decided on the implementation: the extracted strict decoder
-   spec_decode judges the bytes of WriteTo for every generated
-   well-formed packet and its reading is compared with all accessors. *)
+(* C02_conforms is the whole statement on the model: for every packet of the
+   C01 domain (Proofs/RoundP.v [dom]) that is well formed in the respects the
+   specification's strict decoder checks ([wf], Proofs/ConformP.v: default
+   protocol name and version, CONNECT reserved bit clear and will bits
+   consistent, CONNACK flags 0/1, PUBLISH QoS not 3, at least one filter or
+   reason code, subscription options within their bits), the bytes WriteTo
+   emits are exactly one frame that the independent strict decoder of
+   Spec/Mqtt5.v accepts - type and reserved flag bits, minimal remaining
+   length, field order, reason code and property length whenever properties
+   follow, only allowed identifiers, each of its specified type and at most
+   once - and the specification's reading of that frame ([frame_obs], an
+   absent property counting as zero) equals the accessors ([snapshot]).
+   C02_api states it for every history of constructor and setter calls.
+   The specification model shares no constant or table with the library
+   model; spec_roundtrip (Proofs/SpecRoundP.v) shows its decoder and encoder
+   agree with each other on all valid abstract frames. *)
+Theorem C02_conforms : forall k p, dom k p -> wf k p ->
+  exists bs f, encode_pkt k p = Some bs /\ spec_decode bs = Some f
+    /\ af_type f = kind_nibble k /\ frame_obs f = snapshot k p.
+Proof. exact conform_all. Qed.
+Print Assumptions C02_conforms.
+
+Theorem C02_api : forall k h, k <> KUndefined ->
+  Forall (fun c => applicable k c = true) h -> Forall call_ok h ->
+  let p := run_calls k h in
+  cross_ok k p -> remaining_ok k p -> wf k p ->
+  exists bs f, encode_pkt k p = Some bs /\ spec_decode bs = Some f
+    /\ af_type f = kind_nibble k /\ frame_obs f = snapshot k p.
+Proof.
+  intros k h Hk Ha Ho p Hc Hs Hw. apply conform_all; [|exact Hw]. apply api_dom; assumption.
+Qed.
+Print Assumptions C02_api.
 
 Theorem C02_framing : forall k p bs, encode_pkt k p = Some bs ->
   exists body, bs = n2b (getN (M F_fixed) p) :: enc_vb (len body) ++ body
